@@ -78,7 +78,11 @@ def check_rod_grid(r, name, grid, rod, dim, info):
     grid.compute_lag_grid_position_field(); grid.compute_lag_grid_velocity_field()
     N = grid.num_lag_nodes
     f = r.normal(size=(dim, N))
-    F = np.zeros((3, n + 1)); T = np.zeros((3, n))
+    # the interaction objects hand the SAME persistent arrays to every evaluation: the transfer must overwrite them, so they start
+    # dirty here (the nodal and element-centric grids document that they leave the couples as initialised: zero)
+    F = r.normal(size=(3, n + 1)); T = r.normal(size=(3, n))
+    if name in ("nodal", "element"):
+        T[...] = 0.0
     grid.transfer_forcing_from_grid_to_body(body_flow_forces=F, body_flow_torques=T, lag_grid_forcing_field=f.copy())
     X = pad3(grid.position_field); Vm = pad3(grid.velocity_field); f3 = pad3(f)
     O = r.normal(size=(3, 1))
@@ -137,7 +141,9 @@ def check_rigid(r, name, grid, body, dim, info, body_fixed=True):
     grid.compute_lag_grid_position_field(); grid.compute_lag_grid_velocity_field()
     N = grid.num_lag_nodes
     f = r.normal(size=(dim, N))
-    F = np.zeros((3, 1)); T = np.zeros((3, 1))
+    F = r.normal(size=(3, 1)); T = r.normal(size=(3, 1))       # dirty outputs (persistent arrays in the interaction objects)
+    if dim == 2:
+        F[2] = 0.0; T[:2] = 0.0                                   # 2D grids write the in-plane force and the z torque only
     grid.transfer_forcing_from_grid_to_body(body_flow_forces=F, body_flow_torques=T, lag_grid_forcing_field=f.copy())
     X = pad3(grid.position_field); Vm = pad3(grid.velocity_field); f3 = pad3(f)
     Xc = body.position_collection[:, 0:1]; V = body.velocity_collection[:, 0:1]
